@@ -6,7 +6,8 @@
    The theorems below state what that specification is, independently of the order of operations. *)
 From Common Require Import Bytes Blake2b.
 From Trie Require Import Nibbles Node Encode Spec.
-From C06 Require Import Model MapSem Proofs Gen.
+From TrieCodec Require Codec View Db ProofsDb.
+From C06 Require Import Model MapSem Proofs Gen Lookup LookupProofs Bridge.
 
 (* Hash() after any history is the spec root of the last-write-wins map of that history. *)
 Theorem C06_root_spec :
@@ -30,6 +31,35 @@ Theorem C06_reopen_spec :
   forall (ops : list op) (k : list byte), reopen_get ops k = last_write ops k.
 Proof. exact reopen_last_write. Qed.
 Print Assumptions C06_reopen_spec.
+
+(* Reading back through the node database.  [tget] mirrors TrieLookup.lookupValue of lookup.go
+   over the decoder of pkg/trie/triedb/codec (TrieCodec.cdecode, whose round trip with the encoder
+   is C07_roundtrip); [tneeds_root H n] are the bindings commit()/commitChild() write for the trie
+   n (node under nibble-prefix ++ hash, root under its hash, hashed value under key ++ hash).
+   Over ANY database that holds those bindings, a fresh instance opened at the root hash of n
+   returns exactly the value n stores under the key, and nothing for every other key.
+   H is any hash with 32-byte, never all-zero output (an all-zero H256 decodes to the empty hash). *)
+Theorem C06_reopen_lookup :
+  forall (H : list byte -> list byte),
+  (forall x, length (H x) = 32%nat) -> (forall x, Codec.h256_of (H x) = H x) ->
+  forall (st : bool * bool) (n : Codec.tnode) (d : Db.db) (key : list byte),
+  View.wf_node n = true -> ProofsDb.has d (tneeds_root H n) ->
+  tget st d (H (Codec.encode H n)) key = Db.lookup n (Codec.nibbles_of_bytes key).
+Proof. exact tget_correct. Qed.
+Print Assumptions C06_reopen_lookup.
+
+Example C06_reopen_nonvacuous :
+  match Bridge.committed V1 demo_map with
+  | Some n =>
+    let d := tneeds_root blake2b_256 n in
+    View.wf_node n = true /\ Bridge.has_b d (tneeds_root blake2b_256 n) = true /\ (4 <= length d)%nat
+    /\ tget (true, true) d (Codec.root_hash blake2b_256 n) k1234 = Some (repeat (n2b 7) 40)
+    /\ tget (true, true) d (Codec.root_hash blake2b_256 n) [n2b 18] = Some v32
+    /\ tget (true, true) d (Codec.root_hash blake2b_256 n) [n2b 18; n2b 54] = None
+    /\ Codec.root_hash blake2b_256 n = spec_root_bytes blake2b_256 V1 demo_map
+  | None => False
+  end.
+Proof. exact reopen_nonvacuous. Qed.
 
 (* A value is stored by hash exactly under V1 and when it is longer than the regenerated
    constant trie.V1MaxInlineValueSize (32). *)
